@@ -1290,6 +1290,11 @@ def _cached_partial(f: tp.Callable[..., tp.Any], *cached_args):
       variables = flat_state.leaves
       # clone but keep the same variable references
       node_cache = unflatten(graphdef, flat_state, index_ref=index_ref)
+      if node_cache in cache:
+        # the same graph node was passed more than once (or is a child of a
+        # previous argument): keep its first cache entry, later occurrences are
+        # flattened as references to it
+        return node_cache
       cached_new_ref_index = RefMap()
       _fp = fingerprint(
         node_cache,
